@@ -72,6 +72,18 @@ def main():
                 continue
             if rc != 0 and not p.stderr.strip():
                 viol("non-zero exit without a diagnostic on standard error", "no-diagnostic", text, {"mode": mode})
+            # the library's own sentences for this text (Debug of each request's constraint, Display of each
+            # warning, written by dump_c16): the CLI's unsatisfied lines and warning lines must carry them
+            side_c, side_w = {}, []
+            sp = os.path.join(work, f"case_{i}.side")
+            if os.path.exists(sp):
+                for sl in open(sp, encoding="utf-8", errors="replace").read().split("\n"):
+                    if sl.startswith("C "):
+                        k, _, txt = sl[2:].partition(" ")
+                        side_c[int(k)] = txt
+                    elif sl.startswith("W "):
+                        side_w.append(sl[2:])
+            warn_seen = 0
             # normalise the wall-clock lines and the parts that are not modelled (warning sentences, Debug of constraints)
             got = []
             for l in out:
@@ -81,8 +93,16 @@ def main():
                     continue
                 mm = re.match(r"^\t(\d+): .*$", l)
                 if mm and got and (got[-1].startswith("Not all constraints") or re.match(r"^\t\d+: <constraint>$", got[-1])):
+                    idx_u = int(mm.group(1))
+                    stats["unsatisfied_lines_compared"] = stats.get("unsatisfied_lines_compared", 0) + 1
+                    if side_c and l != f"\t{idx_u}: {side_c.get(idx_u)}":
+                        viol(f"unsatisfied request {idx_u} is printed as {l!r} but the library's constraint {idx_u} is {side_c.get(idx_u)!r}", "unsatisfied-line-names-another-constraint", text, {"mode": mode})
                     got.append(f"\t{mm.group(1)}: <constraint>"); continue
                 if l.startswith("\t") and got and (got[-1] == "Warnings:" or got[-1].startswith("\t<warning")):
+                    stats["warning_lines_compared"] = stats.get("warning_lines_compared", 0) + 1
+                    if warn_seen >= len(side_w) or l != "\t" + side_w[warn_seen]:
+                        viol(f"warning line {warn_seen} is printed as {l!r} but the library's warning reads {side_w[warn_seen] if warn_seen < len(side_w) else '<none>'!r}", "warning-line-differs-from-library", text, {"mode": mode})
+                    warn_seen += 1
                     k = "degenerate" if "degenerate" in l else ("Parallel" if "Parallel" in l else ("Perpendicular" if "Perpendicular" in l else "?"))
                     got.append("\t<warning " + k + ">"); continue
                 got.append(l)
